@@ -543,7 +543,7 @@ impl Simulation for C17Sim {
   }
   fn tier(&self, name: &str) -> TierCfg {
     if name == "thorough" {
-      TierCfg { name: "thorough".into(), max_runs: 15_000, secs: 900 }
+      TierCfg { name: "thorough".into(), max_runs: 30_000, secs: 900 }
     } else {
       TierCfg { name: "quick".into(), max_runs: 400, secs: 150 }
     }
